@@ -265,7 +265,9 @@ fn fee_on_build_only(ctx: &mut Ctx, w: &World, st: &St, hist: &[Op], params: &Pa
                     let created: Vec<&ledger::POut> = t.outputs.iter().skip(st.m.outputs.len()).collect();
                     let class = if created.iter().any(|o| !o.value.assets.is_empty()) { "change-with-assets" } else if created.is_empty() { "no-change" } else { "pure-change" };
                     ctx.violation(
-                        format!("C06/fee-short/build-only/{}", class),
+                        // the recorded finding needs a price per byte so small that the late top-up of
+                        // the last change output can widen its coin: say so in the signature
+                        format!("C06/fee-short/build-only/{}/{}", class, if params.coins_per_byte < 100 { "tiny-min-ada-price" } else { "ordinary-min-ada-price" }),
                         format!("balancing returned Ok and set fee {} but the minimum for the signed transaction ({} bytes, {}+{} witnesses) is {}; build_tx refuses ({}), build()/build_tx_unsafe() return the body ; history {:?} finish {:?} config {}", t.fee, signed.len(), nk, nb, need, short(err, 80), hist, method, cname),
                     );
                 }
